@@ -1,7 +1,7 @@
 (* C01 — Two endpoints built on the library interoperate, even across transport loss.
    Statements only.  Nothing else may be added to this file. *)
 From MQ Require Import Base.Prelude Alloc.Alloc Alloc.AllocProofs Framing.Framing Framing.FramingProofs Conn.Types Conn.ConnRecord Conn.Step
-                       Corr.ConnTrace Conn.Scope Conn.Session Conn.IdsQuota Conn.Own Conn.OwnFrame Conn.OwnStep Conn.Run Conn.PairQos Conn.PairQos0 Conn.PairQos5 Conn.PairSeq Conn.PairSeq5 Conn.PairConc Conn.PairBi Conn.PairConc5 Conn.PairBi5 Conn.PairHandshake5 Conn.PairHandshake311 Conn.PairConcIds Conn.PairConcIds5 Conn.PairBiIds Conn.PairBiIds5 Conn.PairQuiescence Conn.PairManual Conn.PairManual5 Conn.PairManualSeq Conn.PairManualSeq5 Conn.PairHandshakeSeq Conn.SessInv Conn.PairLoss Conn.PairLossAcc Conn.PairLossS Conn.PairHandshakeP Conn.PairLossIds Conn.PairLossSIds Conn.PairSeqMixed Conn.PairSeqMixedFresh Conn.PairSeqMixed2 Conn.PairSeqMixed5 Conn.PairBi5 Conn.PairSeqMixed25 Conn.PairSeqMixedFresh5 Conn.PairManualSeq Conn.PairManualSeq5 Conn.PairSeqMixedM.
+                       Corr.ConnTrace Conn.Scope Conn.Session Conn.IdsQuota Conn.Own Conn.OwnFrame Conn.OwnStep Conn.Run Conn.PairQos Conn.PairQos0 Conn.PairQos5 Conn.PairSeq Conn.PairSeq5 Conn.PairConc Conn.PairBi Conn.PairConc5 Conn.PairBi5 Conn.PairHandshake5 Conn.PairHandshake311 Conn.PairConcIds Conn.PairConcIds5 Conn.PairBiIds Conn.PairBiIds5 Conn.PairQuiescence Conn.PairManual Conn.PairManual5 Conn.PairManualSeq Conn.PairManualSeq5 Conn.PairHandshakeSeq Conn.SessInv Conn.PairLoss Conn.PairLossAcc Conn.PairLossS Conn.PairHandshakeP Conn.PairLossIds Conn.PairLossSIds Conn.PairSeqMixed Conn.PairSeqMixedFresh Conn.PairSeqMixed2 Conn.PairSeqMixed5 Conn.PairBi5 Conn.PairSeqMixed25 Conn.PairSeqMixedFresh5 Conn.PairManualSeq Conn.PairManualSeq5 Conn.PairSeqMixedM Conn.PairSeqMixedIds.
 
 (* what the pair property rests on, each proved for ALL states of one endpoint:
    (i) delivery in any fragmentation is the same byte stream (C09) *)
@@ -330,6 +330,28 @@ Theorem C01_qos0_step_any_endpoints : forall gs gr cs cr p, OWN gs cs -> ready c
     F8 cs' cs /\ F8 cr' cr /\ c_qos2 cr' = c_qos2 cr /\ c_qos2 cs' = c_qos2 cs.
 Proof. exact exchange0_gen. Qed.
 Print Assumptions C01_qos0_step_any_endpoints.
+
+(* QUIESCENCE OF THE SEQUENTIAL RUNS, identifiers (Conn/PairSeqMixedIds.v): every complete exchange gives back exactly the
+   identifier it registered and a QoS 0 publication touches none, so the identifiers in use on BOTH sides after any two-way
+   mixed sequence are the ones in use before it - none, when none was ([idle], as after the handshake of fresh objects) *)
+Theorem C01_two_way_mixed_sequence_identifiers_unchanged : forall gA gB l a b,
+  pair_inv2 gA gB a b -> Forall (fun i => v311_any (item_pkt i)) l ->
+  match run_mixed2 gA gB a b l with
+  | Done2 a' b' _ _ => (forall y, is_used a' y = is_used a y) /\ (forall y, is_used b' y = is_used b y)
+  | _ => True
+  end.
+Proof. exact run_mixed2_used. Qed.
+Print Assumptions C01_two_way_mixed_sequence_identifiers_unchanged.
+
+Theorem C01_two_way_mixed_sequence_quiescent : forall gA gB l a b,
+  pair_inv2 gA gB a b -> Forall (fun i => v311_any (item_pkt i)) l -> idle a -> idle b ->
+  match run_mixed2 gA gB a b l with
+  | Done2 a' b' dB dA => dB = fromA l /\ dA = fromB l /\ pair_inv2 gA gB a' b' /\ idle a' /\ idle b'
+  | AppPre2 => True
+  | Fail2 => False
+  end.
+Proof. exact run_mixed2_idle. Qed.
+Print Assumptions C01_two_way_mixed_sequence_quiescent.
 
 (* SEVERAL EXCHANGES IN FLIGHT (v3.1.1, automatic responses, intact FIFO links): the system is two endpoints and two
    queues; an action is "the application publishes a QoS 1/2 message" (skipped when its own precondition fails: identifier
